@@ -46,6 +46,40 @@ def g3(p: fp.Real) -> fp.Real:
 
 '''
 
+# user rewrite rules (fpy2.rewrite.Rewrite): statement rules 1->2, 1->1, 2->1 and an expression rule
+HELPERS += """
+@fp.pattern
+def sl_l(y, m):
+    y = y + m
+
+@fp.pattern
+def sl_r(y, m):
+    y = m + y
+    y = y - 0
+
+@fp.pattern
+def ss_r(y, m):
+    y = m + y
+
+@fp.pattern
+def sh_l(y, m, n):
+    y = y + m
+    y = y + n
+
+@fp.pattern
+def sh_r(y, m, n):
+    y = (m + y) + n
+
+@fp.pattern
+def em_l(p, m):
+    p * m
+
+@fp.pattern
+def em_r(p, m):
+    fp.fma(p, m, 0)
+
+"""
+
 CTX_FLOAT = 'fp.FP16'                         # special, overflow, float_to_fixed act
 CTX_REAL = 'fp.REAL'                          # every rounding rewrite refuses
 CTX_MPFIX = 'fp.MPFixedContext(-8, enable_nan=True, enable_inf=True)'   # special, neg_zero, rescale act
@@ -181,6 +215,11 @@ SKELETONS: list[tuple[str, list, str]] = [
     # arithmetic where insert_round cannot put a block, with marked statements before and after
     ('H1', ['R0', ('Fh', ['_']), 'Xs', ('Wh', ['Xe']), 'A'], 'plain'),
     ('H2', ['R0', 'Xs', ('Ih', [('Fh', ['A']), 'Xc']), ('W', ['_'])], 'plain'),
+    # several matches of the user rules `y = y + m` (...) at different depths: a match directly
+    # followed by a sibling whose block starts with another, a nested match before an outer one,
+    # adjacent matches
+    ('P1', ['A', ('I', ['A', '_']), ('W', ['A', 'A']), ('F', ['A'])], 'plain'),
+    ('P2', [('F', [('IE', ['A'], ['_']), 'A']), 'A', 'A', ('W', ['M2', 'A'])], 'plain'),
     # small nests for the deeper histories
     ('D1', [('F', ['_']), ('W', ['_'])], 'plain'),
     ('D2', [('F', [('W', ['_'])]), '_'], 'plain'),
@@ -510,6 +549,33 @@ class Reading:
                 if isinstance(e, A.Call) and isinstance(e.fn, Function):
                     if funcs is None or any(e.fn is g for g in funcs):
                         out.append(e)
+        return out
+
+    # ---- candidates of the user rules (written from the patterns) ------------
+    def self_increments(self) -> list[tuple]:
+        """`y = y + m`: an assignment to a name of a sum whose first operand is that name."""
+        out = []
+        for p, s in self.stmts:
+            if isinstance(s, A.Assign) and isinstance(s.target, A.NamedId) and type(s.expr) is A.Add:
+                first = s.expr.first
+                if isinstance(first, A.Var) and first.name == s.target:
+                    out.append(p)
+        return out
+
+    def increment_pairs(self) -> list[tuple]:
+        """`y = y + m; y = y + n`: two adjacent self-increments of one name (first paths)."""
+        inc = set(self.self_increments())
+        out = []
+        for p in self.self_increments():
+            q = p[:-1] + (p[-1] + 1,)
+            if q in inc and self.by_path[q].target == self.by_path[p].target:
+                out.append(p)
+        return out
+
+    def products(self) -> list:
+        out = []
+        for _, s in self.stmts:
+            out.extend(e for e in all_exprs(s) if type(e) is A.Mul)
         return out
 
     def count_fpy_calls(self) -> int:
